@@ -64,10 +64,50 @@ OSIM_NOSAN bool setTickWatch(bool on) { bool prev = g_watch; g_watch = on; retur
 
 static OSIM_NOSAN void schedPoint(Task * t, bool finished);
 
+// Where does a run that exhausted its tick budget spin?  After the budget is reached the run goes on for
+// LOOP_WINDOW more ticks; at every tick the call stack is walked along the frame pointers (the product is built
+// with -fno-omit-frame-pointer) and the shallowest stack seen is kept.  Its innermost return address lies in the
+// function whose loop keeps calling: that function is the "loop site" reported with the LIVENESS record.
+static constexpr uint64_t LOOP_WINDOW = 300000;
+static constexpr int LOOP_MAXDEPTH = 256;
+static int g_minDepth = LOOP_MAXDEPTH + 1;
+static void * g_minRet = nullptr;    // return address into the caller of the shallowest ticking function
+static void * g_minRet2 = nullptr;   // and into the caller's caller
+
+static OSIM_NOSAN void sampleStack(void ** fp) {
+    // fp: frame pointer of the ticking function (caller of __cyg_profile_func_enter)
+    int depth = 0;
+    void * ret1 = nullptr, * ret2 = nullptr;
+    uintptr_t prev = 0;
+    while (fp && depth < LOOP_MAXDEPTH) {
+        uintptr_t cur = (uintptr_t)fp;
+        if (cur <= prev || (cur & 7)) break; // frames must move up the stack
+        void * ret = fp[1];
+        if (!ret) break;
+        if (depth == 0) ret1 = ret;
+        if (depth == 1) ret2 = ret;
+        ++depth;
+        prev = cur;
+        fp = (void **)fp[0];
+    }
+    if (depth < g_minDepth) {
+        g_minDepth = depth;
+        g_minRet = ret1;
+        g_minRet2 = ret2;
+    }
+}
+
 static OSIM_NOSAN void livenessAbort(Task * t) {
-    char buf[160];
-    int n = snprintf(buf, sizeof buf, "{\"ev\":\"death\",\"kind\":\"LIVENESS\",\"task\":%d,\"ticks\":%llu}\n", t->id,
-                     (unsigned long long)t->ticks);
+    g_watch = false; // library templates used below may come from instrumented translation units: no ticks from here on
+    char buf[700];
+    std::string loop = g_minRet ? symbolOf(g_minRet) : std::string("?");
+    std::string outer = g_minRet2 ? symbolOf(g_minRet2) : std::string("?");
+    for (auto * str : {&loop, &outer}) {
+        for (auto & ch : *str) { if (ch == '"' || ch == '\\' || (unsigned char)ch < 32) ch = '_'; }
+        if (str->size() > 200) str->resize(200);
+    }
+    int n = snprintf(buf, sizeof buf, "{\"ev\":\"death\",\"kind\":\"LIVENESS\",\"task\":%d,\"ticks\":%llu,\"loop\":\"%s\",\"loop_caller\":\"%s\"}\n", t->id,
+                     (unsigned long long)t->ticks, loop.c_str(), outer.c_str());
     if (n > 0) { ssize_t w = ::write(g_logfd, buf, (size_t)n); (void)w; }
     _exit(3);
 }
@@ -79,7 +119,10 @@ OSIM_NOSAN void __cyg_profile_func_enter(void * fn, void *) {
     if (!t) return;
     uint64_t now = ++t->ticks;
     t->lastFn = fn;
-    if (now >= g_budget) livenessAbort(t);
+    if (now >= g_budget) {
+        sampleStack((void **)__builtin_frame_address(1));
+        if (now >= g_budget + LOOP_WINDOW) livenessAbort(t);
+    }
     if (g_schedActive && t->quantum > 0) {
         if (--t->quantum == 0) schedPoint(t, false);
     }
